@@ -17,6 +17,15 @@ package policy
 // ---------------------------------------------------------------------------
 //@ ghost fileVersion int
 //@ ghost loadedVersion int
+// some file operation (open, write, rewrite, parse) of the call failed: the only
+// reason besides the documented rejections why a policy change is refused
+//@ ghost fileOpFailed bool
+//@ extern os Open
+//@ sets ghost.fileOpFailed = old(ghost.fileOpFailed) || result1 != nil
+//@ assigns nothing
+//@ extern os OpenFile
+//@ sets ghost.fileOpFailed = old(ghost.fileOpFailed) || result1 != nil
+//@ assigns nothing
 
 // OS file append (leaf, ASSUMED): a failed write changes nothing; appending the
 // line `<list key>=<value>` adds the value to that list, appending
@@ -29,6 +38,7 @@ package policy
 //@ ensures result == nil ==> uf("fileAllowlisted", false, ghost.fileVersion, k) == (uf("fileAllowlisted", false, old(ghost.fileVersion), k) || line == sprintf("allowlisted_peers=%s", k))
 //@ ensures result == nil ==> uf("fileSuspicious", false, ghost.fileVersion, k) == (uf("fileSuspicious", false, old(ghost.fileVersion), k) || line == sprintf("suspicious_peers=%s", k))
 //@ ensures result == nil ==> uf("fileAllowNew", false, ghost.fileVersion) == ite(line == "allow_new_swaps=true", true, ite(line == "allow_new_swaps=false", false, uf("fileAllowNew", false, old(ghost.fileVersion))))
+//@ sets ghost.fileOpFailed = old(ghost.fileOpFailed) || result != nil
 //@ assigns ghost.fileVersion
 
 // OS file rewrite without the given line (leaf, ASSUMED; the loop over the
@@ -41,6 +51,7 @@ package policy
 //@ ensures result == nil ==> ghost.fileVersion == old(ghost.fileVersion) + 1
 //@ ensures result == nil ==> uf("fileAllowlisted", false, ghost.fileVersion, k) == (uf("fileAllowlisted", false, old(ghost.fileVersion), k) && line != sprintf("allowlisted_peers=%s", k))
 //@ ensures result == nil ==> uf("fileSuspicious", false, ghost.fileVersion, k) == (uf("fileSuspicious", false, old(ghost.fileVersion), k) && line != sprintf("suspicious_peers=%s", k))
+//@ sets ghost.fileOpFailed = old(ghost.fileOpFailed) || result != nil
 //@ assigns ghost.fileVersion
 
 // the INI parser (dependency, ASSUMED): the policy parsed from the current file
@@ -53,6 +64,7 @@ package policy
 //@ ensures result1 == nil ==> result0.AllowNewSwaps == uf("fileAllowNew", false, ghost.fileVersion)
 //@ ensures result1 != nil ==> result0 == nil
 //@ sets ghost.loadedVersion = ite(result1 == nil, ghost.fileVersion, old(ghost.loadedVersion))
+//@ sets ghost.fileOpFailed = old(ghost.fileOpFailed) || result1 != nil
 //@ assigns nothing
 
 // the pubkey syntax check is a regular expression (library): a function of the text
@@ -67,6 +79,7 @@ package policy
 //@ ensures @C25 switch-is-file: result == nil ==> p.AllowNewSwaps == uf("fileAllowNew", false, ghost.fileVersion)
 //@ ensures @C25 path-kept: result == nil ==> p.path == old(p.path)
 //@ ensures @C25 never-writes: ghost.fileVersion == old(ghost.fileVersion)
+//@ ensures @C25 refused-only-for-a-reason: result != nil ==> (old(p.path) == "" || ghost.fileOpFailed)
 
 //@ func (*Policy).AddToAllowlist
 //@ property C25 C26
@@ -74,6 +87,7 @@ package policy
 //@ ensures @C25 duplicate-rejected-untouched: old(slices.Contains(p.PeerAllowlist, pubkey)) ==> (result != nil && ghost.fileVersion == old(ghost.fileVersion) && ghost.loadedVersion == old(ghost.loadedVersion))
 //@ ensures @C25 invalid-rejected-untouched: !isValidPubkey(pubkey) ==> (result != nil && ghost.fileVersion == old(ghost.fileVersion) && ghost.loadedVersion == old(ghost.loadedVersion))
 //@ ensures @C25 takes-effect: result == nil ==> slices.Contains(p.PeerAllowlist, pubkey)
+//@ ensures @C25 refused-only-for-a-reason: result != nil ==> (old(slices.Contains(p.PeerAllowlist, pubkey)) || !isValidPubkey(pubkey) || old(p.path) == "" || ghost.fileOpFailed)
 //@ ensures @C25 written-and-reloaded: result == nil ==> (ghost.fileVersion == old(ghost.fileVersion) + 1 && ghost.loadedVersion == ghost.fileVersion && uf("fileAllowlisted", false, ghost.fileVersion, pubkey))
 
 //@ func (*Policy).AddToSuspiciousPeerList
@@ -82,6 +96,7 @@ package policy
 //@ ensures @C25 duplicate-rejected-untouched: old(slices.Contains(p.SuspiciousPeerList, pubkey)) ==> (result != nil && ghost.fileVersion == old(ghost.fileVersion) && ghost.loadedVersion == old(ghost.loadedVersion))
 //@ ensures @C25 invalid-rejected-untouched: !isValidPubkey(pubkey) ==> (result != nil && ghost.fileVersion == old(ghost.fileVersion) && ghost.loadedVersion == old(ghost.loadedVersion))
 //@ ensures @C25,C26 takes-effect: result == nil ==> slices.Contains(p.SuspiciousPeerList, pubkey)
+//@ ensures @C25,C26 refused-only-for-a-reason: result != nil ==> (old(slices.Contains(p.SuspiciousPeerList, pubkey)) || !isValidPubkey(pubkey) || old(p.path) == "" || ghost.fileOpFailed)
 //@ ensures @C25,C26 written-and-reloaded: result == nil ==> (ghost.fileVersion == old(ghost.fileVersion) + 1 && ghost.loadedVersion == ghost.fileVersion && uf("fileSuspicious", false, ghost.fileVersion, pubkey))
 
 //@ func (*Policy).RemoveFromAllowlist
